@@ -14,6 +14,7 @@ const depPkg = "app/dependency"
 func init() {
 	register(&PropDef{ID: "C10", Title: "Dependency container: lazy singletons, fixed precedence, safe failure", Rules: rulesC10,
 		Explanation: "Decided (structural necessary conditions, dependency.Provider, all paths): R1 every push on the resolution stack is popped on every path to every return of Get (a failed or optional resolution leaves no name behind); R2 an instance produced by a factory is returned with a nil error only after it was stored in the instance table under the requested name; R3 tables are consulted in the order instances, factories, default factories, each only on the miss edge of the previous; R4 Get freezes the provider (Block) before it reads any table, and every definition method tests the frozen flag before any table write; R5 every store into the instance table of a value taken from a default table is confined to the miss edges of both explicit tables for that name; R6 every definition writes its table only on the miss edge of a lookup of the same name in that table (plus the explicit-table lookups that make explicit win); R7 in InjectTo the optional marker is recomputed for every field (not loop-carried), a failed optional field continues, a failed required field returns the error, and the extra injectors run after the field loop with their error returned; R8 the cycle scan visits the whole resolution stack. " +
+			"Added in round 2: R7 applies the per-field-flag clause to every implementer of app.Injector (datascope.Injector, MapInjector, ...: no branch in the field loop tests a boolean carried over from earlier fields) and requires that no branch taken before Get in Provider.InjectTo depends on provider state (no negative cache); R9 outside package dependency the library defines services only through SetDefault/AddDefaultFactory, never Set/AddFactory (a built-in in an explicit slot cannot be overridden by the application). " +
 			"NOT decided: behaviour of arbitrary user factory graphs (factories are user code), reflection-level type compatibility of injected values.",
 	})
 }
@@ -90,12 +91,11 @@ func dependsOnField(v ssa.Value, fields map[string]bool, depth int, seen map[ssa
 	return ""
 }
 
-
 // providerRoles: the fields of dependency.Provider by role, discovered from
 // what the exported API methods do (robust to renaming unexported fields).
 type providerRoles struct {
 	inst, fact, defInst, defFact, inj, blocked, stack string
-	scan *ssa.Function // the cycle scan (bool function over the stack, called by Get)
+	scan                                              *ssa.Function // the cycle scan (bool function over the stack, called by Get)
 }
 
 func discoverProviderRoles(c *Ctx) *providerRoles {
@@ -263,19 +263,19 @@ func rulesC10(c *Ctx) {
 	}
 	pushes := 0
 	for _, pf := range reachableSamePkg(get, 2) {
-	pf := pf
-	eachInstr(pf, func(b *ssa.BasicBlock, i int, in ssa.Instruction) {
-		if push, _ := isStackStore(in); push {
-			pushes++
-			bad := MustPass(pf, in, popEvent)
-			con := fmt.Sprintf("push #%d on the resolution stack (resolution path of Get)", pushes)
-			if len(bad) == 0 {
-				c.OK("R1", con, in.Pos(), "popped on every path to every return")
-			} else {
-				c.Bad("R1", con, in.Pos(), fmt.Sprintf("the return at %s is reachable without popping — the name stays on the stack and a later Get of it reports a cycle (or pops a foreign slot)", c.pos(bad[0].Instr.Pos())))
+		pf := pf
+		eachInstr(pf, func(b *ssa.BasicBlock, i int, in ssa.Instruction) {
+			if push, _ := isStackStore(in); push {
+				pushes++
+				bad := MustPass(pf, in, popEvent)
+				con := fmt.Sprintf("push #%d on the resolution stack (resolution path of Get)", pushes)
+				if len(bad) == 0 {
+					c.OK("R1", con, in.Pos(), "popped on every path to every return")
+				} else {
+					c.Bad("R1", con, in.Pos(), fmt.Sprintf("the return at %s is reachable without popping — the name stays on the stack and a later Get of it reports a cycle (or pops a foreign slot)", c.pos(bad[0].Instr.Pos())))
+				}
 			}
-		}
-	})
+		})
 	}
 	c.Floor("R1", pushes, 1)
 
@@ -506,6 +506,10 @@ func rulesC10(c *Ctx) {
 
 	// ---- R7 optional injection ----------------------------------------------------------------------
 	ruleInjectTo(c, inject, get)
+	ruleInjectorSiblings(c, inject, get)
+
+	// ---- R9 the library registers its built-ins in the default slots only -------------------------------
+	ruleBuiltinsAreDefaults(c)
 
 	// ---- R8 the cycle scan covers the whole stack ------------------------------------------------------
 	isCalled := ro.scan
@@ -793,4 +797,134 @@ func dependsOnMarker(facts *Facts, v ssa.Value, depth int, seen map[ssa.Value]bo
 		}
 	}
 	return false
+}
+
+// ruleInjectorSiblings (R7, all implementers of app.Injector): inside the field
+// loop no branch may depend on a boolean carried over from an earlier field, and
+// in Provider.InjectTo whether a field is resolved may not depend on provider
+// state (a negative cache pins a failure that could succeed later).
+func ruleInjectorSiblings(c *Ctx, inject, get *ssa.Function) {
+	iface := c.P.Iface("app", "Injector")
+	if iface == nil {
+		c.Bad("R7", "app.Injector", 0, "interface not found")
+		return
+	}
+	n := 0
+	for _, T := range c.P.Implementers(iface) {
+		for _, f := range c.P.MethodsOf(T, iface) {
+			if f.Blocks == nil || len(loopBackEdges(f)) == 0 {
+				continue
+			}
+			n++
+			bad := ""
+			var pos token.Pos
+			eachInstr(f, func(b *ssa.BasicBlock, _ int, in ssa.Instruction) {
+				iff, ok := in.(*ssa.If)
+				if !ok || !inLoop(f, b) {
+					return
+				}
+				if _, isB := iff.Cond.Type().Underlying().(*types.Basic); isB && loopCarried(iff.Cond) {
+					if p, isPhi := stripNot(iff.Cond).(*ssa.Phi); isPhi && types.Identical(p.Type().Underlying(), types.Typ[types.Bool]) {
+						bad, pos = "a branch in the field loop tests a boolean carried over from earlier fields", iff.Pos()
+					}
+				}
+			})
+			c.Check(bad == "", "R7", "per-field flags in "+fname(f), orPos(pos, f.Pos()), "every flag tested in the field loop is recomputed per field",
+				bad+" — after one optional ('?') field every later field is treated as optional and a missing required value is silently skipped")
+		}
+	}
+	c.Floor("R7", n, 3)
+	// Provider.InjectTo: the decision to resolve a field does not depend on provider state
+	gets := CallsTo(inject, qualName(get))
+	bad := ""
+	var pos token.Pos
+	eachInstr(inject, func(b *ssa.BasicBlock, _ int, in ssa.Instruction) {
+		iff, ok := in.(*ssa.If)
+		if !ok || !inLoop(inject, b) {
+			return
+		}
+		for _, g := range gets {
+			if dominates(g.Instr, iff) {
+				return
+			}
+		}
+		for _, o := range Origins(iff.Cond, FlowOpts{}) {
+			if o.Kind == "field" && strings.HasPrefix(o.Name, "dependency.Provider.") {
+				if _, isStr := o.Val.Type().Underlying().(*types.Basic); isStr && o.Val.Type().Underlying().(*types.Basic).Kind() == types.String {
+					continue
+				}
+				bad, pos = "a branch taken before Get depends on "+o.Name, iff.Pos()
+			}
+		}
+	})
+	c.Check(bad == "", "R7", "every tagged field is resolved through Get", orPos(pos, inject.Pos()), "no branch before Get depends on provider state",
+		bad+" — a remembered earlier failure decides the injection, so a failed or optional-and-missing resolution changes the outcome of later requests")
+}
+
+func stripNot(v ssa.Value) ssa.Value {
+	for {
+		u, ok := v.(*ssa.UnOp)
+		if !ok || u.Op != token.NOT {
+			return v
+		}
+		v = u.X
+	}
+}
+
+// ruleBuiltinsAreDefaults (R9): outside package dependency, library code
+// defines services only through SetDefault / AddDefaultFactory.  A built-in put
+// into an explicit slot (Set / AddFactory) cannot be overridden: the user's own
+// Set is refused as a duplicate, the user's AddFactory never runs.
+func ruleBuiltinsAreDefaults(c *Ctx) {
+	explicit := map[string]bool{"Set": true, "AddFactory": true}
+	defaults := map[string]bool{"SetDefault": true, "AddDefaultFactory": true}
+	isDP := func(ci *CallInfo) string {
+		var fo *types.Func
+		if ci.Method != nil {
+			fo = ci.Method
+		} else if ci.Static != nil {
+			if o, ok := ci.Static.Object().(*types.Func); ok {
+				fo = o
+			}
+		}
+		if fo == nil || fo.Pkg() == nil {
+			return ""
+		}
+		pp := fo.Pkg().Path()
+		if pp != modPath+"/app" && pp != modPath+"/"+depPkg {
+			return ""
+		}
+		sig, _ := fo.Type().(*types.Signature)
+		if sig == nil || sig.Recv() == nil {
+			return ""
+		}
+		rt := sig.Recv().Type()
+		if pt, ok := rt.(*types.Pointer); ok {
+			rt = pt.Elem()
+		}
+		nt, ok := types.Unalias(rt).(*types.Named)
+		if !ok || (nt.Obj().Name() != "DependencyProvider" && nt.Obj().Name() != "Provider") {
+			return ""
+		}
+		return fo.Name()
+	}
+	nDef := 0
+	for _, f := range c.P.AllModuleFuncs() {
+		if f.Pkg == nil || f.Pkg.Pkg.Path() == modPath+"/"+depPkg {
+			continue
+		}
+		for _, g := range withClosures(f) {
+			for _, ci := range Calls(g) {
+				m := isDP(ci)
+				if defaults[m] {
+					nDef++
+				}
+				if explicit[m] {
+					c.Bad("R9", "explicit definition in library code: "+fname(g)+" -> "+m, ci.Pos(),
+						"the library fills an explicit slot of the provider — a later explicit definition by the application is refused (Set) or never used (AddFactory), so 'explicit always wins over a built-in default' no longer holds")
+				}
+			}
+		}
+	}
+	c.Check(nDef > 0, "R9", "built-ins are registered as defaults", 0, fmt.Sprintf("%d default registrations, no explicit one outside package dependency", nDef), "no default registration found; cannot certify")
 }
